@@ -22,6 +22,23 @@ def main():
     mod = importlib.import_module(f"j2mverif.checks.{job['check'].lower()}")
     if hasattr(mod, "setup_worker"):
         mod.setup_worker()
+    # function-level coverage of the repository code by this shard (sys.monitoring, each code object reported once)
+    reached = set()
+    try:
+        mon = sys.monitoring
+        mon.use_tool_id(mon.COVERAGE_ID, "j2mverif-coverage")
+
+        def _start(code, offset):
+            fn = code.co_filename
+            i = fn.find("/json_to_models/")
+            if i >= 0:
+                reached.add(fn[i + 1:] + "::" + code.co_qualname)
+            return mon.DISABLE
+
+        mon.register_callback(mon.COVERAGE_ID, mon.events.PY_START, _start)
+        mon.set_events(mon.COVERAGE_ID, mon.events.PY_START)
+    except Exception:
+        pass
     signal.signal(signal.SIGALRM, _alarm)
     timeout = float(job["timeout"])
     with open(fout, "w") as out:
@@ -39,6 +56,11 @@ def main():
                 signal.setitimer(signal.ITIMER_REAL, 0)
             out.write(json.dumps({"i": i, "r": r}, default=repr) + "\n")
             out.flush()
+    try:
+        with open(fout + ".cov", "w") as f:
+            json.dump(sorted(reached), f)
+    except Exception:
+        pass
 
 
 if __name__ == "__main__":
